@@ -17,9 +17,15 @@ import (
 )
 
 const (
-	G   = 5   // 5x5 grid, coordinates 0..4
-	S   = 154 // query points are ((77i+22)/154, (77j+14)/154): never on a line through two half-grid points
-	pad = 1e-9
+	G       = 5   // 5x5 grid, coordinates 0..4
+	S       = 154 // query points are ((77i+22)/154, (77j+14)/154): never on a line through two half-grid points
+	padNear = 1e-9
+)
+
+// pad is the tolerance for "inside the box"; shift, when set, moves every problem of a part far from the origin.
+var (
+	pad   = padNear
+	shift orb.Point
 )
 
 type qpt struct {
@@ -93,8 +99,21 @@ func strictlyIn(b orb.Bound, p orb.Point) bool {
 // checkRing validates clip.Ring(box, ring) for a closed ring. Returns the result.
 func checkRing(c *mc.Ctx, box orb.Bound, ring orb.Ring, what string) orb.Ring {
 	got := clip.Ring(box, ring.Clone())
-	desc := func() string { return fmt.Sprintf("%s box=%v ring=%v got=%v", what, box, ring, got) }
-	if g2 := clip.Ring(box, orb.Ring(refgeom.Spare(ring))); !bitsEq(g2, got) {
+	if shift != (orb.Point{}) {
+		// the same problem translated far from the origin (all inputs stay exact in float64): clip there,
+		// translate the result back, and judge it with the looser tolerance `pad`
+		sb := orb.Bound{Min: orb.Point{box.Min[0] + shift[0], box.Min[1] + shift[1]}, Max: orb.Point{box.Max[0] + shift[0], box.Max[1] + shift[1]}}
+		sr := ring.Clone()
+		for i := range sr {
+			sr[i] = orb.Point{sr[i][0] + shift[0], sr[i][1] + shift[1]}
+		}
+		got = clip.Ring(sb, sr)
+		for i := range got {
+			got[i] = orb.Point{got[i][0] - shift[0], got[i][1] - shift[1]}
+		}
+	}
+	desc := func() string { return fmt.Sprintf("%s box=%v ring=%v shift=%v got=%v", what, box, ring, shift, got) }
+	if g2 := clip.Ring(box, orb.Ring(refgeom.Spare(ring))); shift == (orb.Point{}) && !bitsEq(g2, got) {
 		c.Failf("layout-dependent", "the ring with spare capacity behind it clips to %v | %s", g2, desc())
 	}
 	if got != nil && len(got) == 0 {
@@ -127,7 +146,7 @@ func checkRing(c *mc.Ctx, box orb.Bound, ring orb.Ring, what string) orb.Ring {
 			inside = false
 		}
 	}
-	if inside && !bitsEq(got, ring) {
+	if inside && shift == (orb.Point{}) && !bitsEq(got, ring) {
 		c.Failf("inside-unchanged", "ring wholly inside must come back unchanged | %s", desc())
 	}
 	if !box.Intersects(rb) && got != nil {
@@ -259,6 +278,24 @@ func main() {
 		ringPart(3 + c.Choose(nGen-2))(c)
 	})
 	boxes = saved
+	// far from the origin: every 3-vertex list again, translated by (2^20, -2^20+3). Crossing formulas that are
+	// algebraically the same but cancel (products of absolute coordinates) are off by ~1e-4 there; an honest
+	// interpolation is off by a few ulps (2e-10), so the box test allows 1e-7
+	shift, pad = orb.Point{1 << 20, -(1 << 20) + 3}, 1e-7
+	savedBoxes := boxes
+	boxes = append(append([]orb.Bound{}, boxes[:4]...), general[0])
+	r.Explore("rings-far-from-origin", "5 boxes x all 25^3 closed vertex lists translated by (2^20, -2^20+3): vertices in the box within 1e-7, region on the query lattice, closure", mc.Opts{MaxDev: -1, Split: 2}, func(c *mc.Ctx) {
+		box := boxes[c.Choose(len(boxes))]
+		ring := make(orb.Ring, 0, 4)
+		for i := 0; i < 3; i++ {
+			ring = append(ring, gp(c.Choose(G*G)))
+		}
+		ring = append(ring, ring[0])
+		if checkRing(c, box, ring, "clip.Ring far from the origin") != nil {
+			c.NonTrivial()
+		}
+	})
+	boxes, shift, pad = savedBoxes, orb.Point{}, padNear
 	// polygons, multi-polygons, collections, mvt layer clip: composition over rings
 	outerCat := [][]int{{0, 4, 24, 20}, {6, 8, 18, 16}, {0, 4, 24}, {20, 24, 4, 0}, {0, 2, 12, 14, 24, 20}}
 	mkRing := func(idx []int) orb.Ring {
@@ -465,7 +502,9 @@ func main() {
 		ring = append(ring, ring[0])
 		c.NonTrivial()
 		got := clip.Ring(box, ring.Clone())
-		desc := func() string { return fmt.Sprintf("teeth=%d sides=%04b square=%v cw=%v rot=%d box=%v ring=%v got=%v", n, mask, square, cw, rot, box, ring, got) }
+		desc := func() string {
+			return fmt.Sprintf("teeth=%d sides=%04b square=%v cw=%v rot=%d box=%v ring=%v got=%v", n, mask, square, cw, rot, box, ring, got)
+		}
 		for _, p := range got {
 			if !box.Contains(p) {
 				c.Failf("vertex-outside", "vertex %v outside the box | %s", p, desc())
